@@ -22,6 +22,11 @@ var (
 	registryPersistence = abool.NewBool(false)
 	writeRegistrySoon   = abool.NewBool(false)
 
+	// registryReady is set when Initialize is done with the registry, ie. has
+	// loaded the persisted registry if persistence is enabled. Before that
+	// there is nothing to save and no place to save it to.
+	registryReady = abool.NewBool(false)
+
 	registry     = make(map[string]*Database)
 	registryLock sync.Mutex
 
@@ -139,6 +144,11 @@ func saveRegistry(lock bool) error {
 	if lock {
 		registryLock.Lock()
 		defer registryLock.Unlock()
+	}
+
+	// Do not replace the persisted registry before it was loaded.
+	if !registryReady.IsSet() {
+		return nil
 	}
 
 	// marshal
